@@ -55,7 +55,7 @@ func c14TTL(p *core.Prog, r *core.Report) {
 					okTTL = fromDeadline
 				}
 			}
-			if ret, ok := i.(*ssa.Return); ok && len(ret.Results) == 2 && loadsGlobal(ret.Results[1], "ErrTimeout") {
+			if ret, ok := i.(*ssa.Return); ok && len(ret.Results) == 2 && loadsGlobal(core.ReturnValues(ret)[1], "ErrTimeout") {
 				for _, c := range factsAt(ret.Block()).cmps {
 					if k, isK := core.ConstInt(c.Y); isK && k == msNanos && c.Op == token.LSS && callResult(c.X, "time.Time.Sub") != nil {
 						okGuard = true
@@ -368,7 +368,7 @@ func c14Cancel(p *core.Prog, r *core.Report) {
 			if !isRet || len(ret.Results) != 2 {
 				return false
 			}
-			return callResult(ret.Results[1], "GetContextError") != nil
+			return callResult(core.ReturnValues(ret)[1], "GetContextError") != nil
 		}
 		core.EachInstr(f, func(i ssa.Instruction) {
 			if isCtxRet(i) {
